@@ -1,8 +1,814 @@
-//! W3 shared-core world (C15).
-use crate::harness::CaseOut;
+//! W3 shared-core world (C15): 2-4 tasks drive one `SharedCore` concurrently on a single-threaded
+//! executor whose poll order is the schedule; SimDisk yields (Pending once) before every storage
+//! operation and the async mutex parks waiters, so every storage op and lock acquisition is a
+//! preemption point. The recorded invoke/return history is checked for linearizability
+//! (Wing-Gong search) against sequential models.
+
+use crate::disk::Disk;
+use crate::exec::{self, SchedOutcome, Task, TaskWaker};
+use crate::harness::{Body, Case, CaseOut};
+use crate::merkle::RefTree;
+use crate::model::{payload, Blk};
+use crate::rng::Rng;
+use crate::world::{key_from_seed, open_core, CacheMode, Viol};
+use ed25519_dalek::{Signature, Verifier};
+use hypercore::replication::{CoreInfo, CoreMethods, ReplicationMethods, SharedCore};
+use hypercore::{PartialKeypair, Proof, RequestBlock, RequestUpgrade};
 use serde::{Deserialize, Serialize};
-#[derive(Clone, Debug, Serialize, Deserialize, PartialEq, Default)]
-pub struct SharedSpec {}
-pub fn run_shared(_s: &SharedSpec) -> CaseOut {
-    CaseOut::default()
+use std::cell::{Cell, RefCell};
+use std::collections::{BTreeMap, BTreeSet};
+use std::rc::Rc;
+use std::sync::atomic::AtomicBool;
+use std::sync::Arc;
+
+#[derive(Clone, Debug, Serialize, Deserialize, PartialEq)]
+pub enum Op {
+    Append(Blk),
+    Batch(Vec<Blk>),
+    Get(u64),
+    Has(u64),
+    Info,
+    /// create_proof(block {index, nodes 0})
+    ProofBlock(u64),
+    /// create_proof(upgrade {start 0, length})
+    ProofUpgrade(u64),
+    MissingNodes(u64),
+    /// clear through the public mutex (SharedCore.0.lock().await.clear(..))
+    Clear(u64, u64),
+    /// verify_and_apply_proof(pool[k]) on a replica
+    Apply(u32),
+}
+
+#[derive(Clone, Debug, Serialize, Deserialize, PartialEq)]
+pub enum Sched {
+    Random { seed: u64 },
+    Pct { seed: u64, d: u32 },
+    /// explicit choices (index into the ready list at each step; beyond the end: first ready)
+    Path(Vec<u8>),
+    /// depth-first enumeration of all schedules up to `cap`
+    Dfs { cap: u32 },
+}
+
+#[derive(Clone, Debug, Serialize, Deserialize, PartialEq)]
+pub struct SharedSpec {
+    pub key_seed: u64,
+    pub replica: bool,
+    /// blocks appended (and flushed or not) before the concurrent phase; for a replica: the writer's log
+    pub prelude: Vec<Blk>,
+    /// second growth of the writer (replica role): an upgrade-only proof L1 -> L2
+    pub prelude2: Vec<Blk>,
+    pub tasks: Vec<Vec<Op>>,
+    pub sched: Sched,
+}
+
+impl Default for SharedSpec {
+    fn default() -> Self {
+        SharedSpec { key_seed: 1, replica: false, prelude: vec![], prelude2: vec![], tasks: vec![], sched: Sched::Random { seed: 0 } }
+    }
+}
+
+#[derive(Clone, Debug, PartialEq)]
+pub enum ResAbs {
+    Appended(u64, u64),
+    Got(Option<Vec<u8>>),
+    Has(bool),
+    Info(u64, u64),
+    /// Some(proof): length the signature verifies for (None if no upgrade section), block bytes ok
+    ProofSome { sig_len: Option<u64>, block: Option<(u64, Vec<u8>)> },
+    ProofNone,
+    Missing(u64),
+    Cleared,
+    Accepted,
+    Refused,
+    Err(String),
+}
+
+#[derive(Clone, Debug)]
+pub struct Rec {
+    pub task: usize,
+    pub op: Op,
+    pub inv: u64,
+    pub ret: u64,
+    pub res: ResAbs,
+    pub raw_sig: Option<Vec<u8>>,
+}
+
+// ------------------------------------------------------------------------- sequential models
+
+#[derive(Clone, Debug, PartialEq, Eq, Hash, PartialOrd, Ord)]
+pub struct SeqState {
+    pub blocks: Vec<Option<Vec<u8>>>, // None = cleared (writer) / not held (replica)
+    pub sizes: Vec<u64>,
+    pub length: u64,
+    pub byte_length: u64,
+}
+
+pub struct PoolInfo {
+    /// per pool proof: (upgrade start -> target length/bytes) and block (index, bytes), needed length
+    pub upgrade: Option<(u64, u64, u64)>,
+    pub block: Option<(u64, Vec<u8>)>,
+    pub needs_len: u64,
+}
+
+/// expected abstract result of `op` applied at `st` (writer role), mutating `st`
+fn seq_apply(st: &mut SeqState, op: &Op, replica: bool, pool: &[PoolInfo]) -> Vec<ResAbs> {
+    match op {
+        Op::Append(_) | Op::Batch(_) if replica => vec![ResAbs::Err("NotWritable".into())],
+        Op::Append(b) => {
+            let d = payload(b);
+            st.byte_length += d.len() as u64;
+            st.sizes.push(d.len() as u64);
+            st.blocks.push(Some(d));
+            st.length += 1;
+            vec![ResAbs::Appended(st.length, st.byte_length)]
+        }
+        Op::Batch(bs) => {
+            for b in bs {
+                let d = payload(b);
+                st.byte_length += d.len() as u64;
+                st.sizes.push(d.len() as u64);
+                st.blocks.push(Some(d));
+                st.length += 1;
+            }
+            vec![ResAbs::Appended(st.length, st.byte_length)]
+        }
+        Op::Get(i) => vec![ResAbs::Got(st.blocks.get(*i as usize).cloned().flatten())],
+        Op::Has(i) => vec![ResAbs::Has(st.blocks.get(*i as usize).map(|b| b.is_some()).unwrap_or(false))],
+        Op::Info => vec![ResAbs::Info(st.length, st.byte_length)],
+        Op::ProofBlock(i) => {
+            if st.length == 0 {
+                vec![ResAbs::Err("any".into())]
+            } else {
+                match st.blocks.get(*i as usize).cloned().flatten() {
+                    Some(b) if *i < st.length => vec![ResAbs::ProofSome { sig_len: None, block: Some((*i, b)) }],
+                    _ => vec![ResAbs::ProofNone, ResAbs::Err("any".into())],
+                }
+            }
+        }
+        Op::ProofUpgrade(k) => {
+            if *k == 0 || *k > st.length {
+                vec![ResAbs::Err("any".into())]
+            } else {
+                vec![ResAbs::ProofSome { sig_len: Some(st.length), block: None }]
+            }
+        }
+        Op::MissingNodes(_) => vec![ResAbs::Missing(u64::MAX)], // value not modelled, only Ok-ness
+        Op::Clear(s, e) => {
+            for i in *s..(*e).min(st.length) {
+                st.blocks[i as usize] = None;
+            }
+            vec![ResAbs::Cleared]
+        }
+        Op::Apply(k) => {
+            let p = &pool[*k as usize % pool.len().max(1)];
+            if let Some((start, tlen, tbytes)) = p.upgrade {
+                if st.length == start {
+                    st.length = tlen;
+                    st.byte_length = tbytes;
+                    st.blocks.resize(tlen as usize, None);
+                    if let Some((i, b)) = &p.block {
+                        st.blocks[*i as usize] = Some(b.clone());
+                    }
+                    vec![ResAbs::Accepted]
+                } else if st.length == tlen {
+                    // a duplicate of an upgrade the replica already has verifies again and
+                    // changes nothing (its block, if any, is simply stored again)
+                    if let Some((i, b)) = &p.block {
+                        st.blocks[*i as usize] = Some(b.clone());
+                    }
+                    vec![ResAbs::Accepted]
+                } else {
+                    // any other length: refused (or accepted without effect); never a change
+                    vec![ResAbs::Refused, ResAbs::Accepted]
+                }
+            } else if st.length >= p.needs_len {
+                if let Some((i, b)) = &p.block {
+                    st.blocks[*i as usize] = Some(b.clone());
+                }
+                vec![ResAbs::Accepted]
+            } else {
+                vec![ResAbs::Refused]
+            }
+        }
+    }
+}
+
+fn res_matches(expected: &[ResAbs], got: &ResAbs) -> bool {
+    expected.iter().any(|e| match (e, got) {
+        (ResAbs::Err(_), ResAbs::Err(_)) => true,
+        (ResAbs::Missing(_), ResAbs::Missing(_)) => true,
+        (a, b) => a == b,
+    })
+}
+
+/// Wing-Gong linearizability search with memoisation on (linearised set, state).
+pub fn linearizable(recs: &[Rec], init: &SeqState, replica: bool, pool: &[PoolInfo]) -> (bool, u64) {
+    let n = recs.len();
+    assert!(n <= 24);
+    let mut seen: BTreeSet<(u32, SeqState)> = BTreeSet::new();
+    let mut explored = 0u64;
+    fn go(
+        recs: &[Rec],
+        done: u32,
+        st: &SeqState,
+        replica: bool,
+        pool: &[PoolInfo],
+        seen: &mut BTreeSet<(u32, SeqState)>,
+        explored: &mut u64,
+    ) -> bool {
+        let n = recs.len();
+        if done == (1u32 << n) - 1 {
+            return true;
+        }
+        if !seen.insert((done, st.clone())) {
+            return false;
+        }
+        *explored += 1;
+        // minimal ops: not done, and no other not-done op returned before its invocation
+        let min_ret = (0..n).filter(|i| done >> i & 1 == 0).map(|i| recs[i].ret).min().unwrap();
+        for i in 0..n {
+            if done >> i & 1 == 1 || recs[i].inv > min_ret {
+                continue;
+            }
+            let mut s2 = st.clone();
+            let exp = seq_apply(&mut s2, &recs[i].op, replica, pool);
+            if res_matches(&exp, &recs[i].res) && go(recs, done | 1 << i, &s2, replica, pool, seen, explored) {
+                return true;
+            }
+        }
+        false
+    }
+    let ok = go(recs, 0, init, replica, pool, &mut seen, &mut explored);
+    (ok, explored)
+}
+
+// ------------------------------------------------------------------------- execution
+
+struct Built {
+    shared: SharedCore,
+    disk: Disk,
+    init: SeqState,
+    pool: Vec<Proof>,
+    pool_info: Vec<PoolInfo>,
+    writer_blocks: Vec<Vec<u8>>,
+}
+
+fn build(spec: &SharedSpec) -> Result<Built, String> {
+    let key = key_from_seed(spec.key_seed);
+    let disk = Disk::new();
+    let kp_w = PartialKeypair { public: key.verifying_key(), secret: Some(key.clone()) };
+    let pre: Vec<Vec<u8>> = spec.prelude.iter().map(payload).collect();
+    let pre2: Vec<Vec<u8>> = spec.prelude2.iter().map(payload).collect();
+    let res = exec::run(async {
+        if !spec.replica {
+            let mut core = open_core(&disk, Some(kp_w), CacheMode::Off).await.map_err(|e| e.to_string())?;
+            for b in &pre {
+                core.append(b).await.map_err(|e| e.to_string())?;
+            }
+            let mut st = SeqState { blocks: vec![], sizes: vec![], length: 0, byte_length: 0 };
+            for b in &pre {
+                st.byte_length += b.len() as u64;
+                st.sizes.push(b.len() as u64);
+                st.blocks.push(Some(b.clone()));
+                st.length += 1;
+            }
+            Ok::<Built, String>(Built {
+                shared: SharedCore::from_hypercore(core),
+                disk: disk.clone(),
+                init: st,
+                pool: vec![],
+                pool_info: vec![],
+                writer_blocks: pre.clone(),
+            })
+        } else {
+            // companion writer and a scratch replica manufacture an honest proof pool
+            let wdisk = Disk::new();
+            let mut writer = open_core(&wdisk, Some(kp_w), CacheMode::Off).await.map_err(|e| e.to_string())?;
+            if !pre.is_empty() {
+                writer.append_batch(&pre).await.map_err(|e| e.to_string())?;
+            }
+            let kp_r = PartialKeypair { public: key.verifying_key(), secret: None };
+            let sdisk = Disk::new();
+            let mut scratch = open_core(&sdisk, Some(kp_r.clone()), CacheMode::Off).await.map_err(|e| e.to_string())?;
+            let l1 = pre.len() as u64;
+            let b1: u64 = pre.iter().map(|b| b.len() as u64).sum();
+            let mut pool = vec![];
+            let mut info = vec![];
+            if l1 > 0 {
+                // P0: upgrade 0 -> L1 with block 0
+                let p0 = writer
+                    .create_proof(Some(RequestBlock { index: 0, nodes: 0 }), None, None, Some(RequestUpgrade { start: 0, length: l1 }))
+                    .await
+                    .map_err(|e| e.to_string())?
+                    .ok_or("no proof")?;
+                scratch.verify_and_apply_proof(&p0).await.map_err(|e| e.to_string())?;
+                pool.push(p0);
+                info.push(PoolInfo { upgrade: Some((0, l1, b1)), block: Some((0, pre[0].clone())), needs_len: 0 });
+                // block-only proofs against the just-upgraded state (not applied to scratch)
+                for i in 1..l1.min(6) {
+                    let nodes = scratch.missing_nodes(i).await.map_err(|e| e.to_string())?;
+                    let p = writer
+                        .create_proof(Some(RequestBlock { index: i, nodes }), None, None, None)
+                        .await
+                        .map_err(|e| e.to_string())?
+                        .ok_or("no proof")?;
+                    pool.push(p);
+                    info.push(PoolInfo { upgrade: None, block: Some((i, pre[i as usize].clone())), needs_len: l1 });
+                }
+                if !pre2.is_empty() {
+                    writer.append_batch(&pre2).await.map_err(|e| e.to_string())?;
+                    let l2 = l1 + pre2.len() as u64;
+                    let b2 = b1 + pre2.iter().map(|b| b.len() as u64).sum::<u64>();
+                    let p = writer
+                        .create_proof(None, None, None, Some(RequestUpgrade { start: l1, length: l2 - l1 }))
+                        .await
+                        .map_err(|e| e.to_string())?
+                        .ok_or("no proof")?;
+                    pool.push(p);
+                    info.push(PoolInfo { upgrade: Some((l1, l2, b2)), block: None, needs_len: l1 });
+                }
+            }
+            let replica = open_core(&disk, Some(kp_r), CacheMode::Off).await.map_err(|e| e.to_string())?;
+            let mut wb = pre.clone();
+            wb.extend(pre2.iter().cloned());
+            Ok(Built {
+                shared: SharedCore::from_hypercore(replica),
+                disk: disk.clone(),
+                init: SeqState { blocks: vec![], sizes: vec![], length: 0, byte_length: 0 },
+                pool,
+                pool_info: info,
+                writer_blocks: wb,
+            })
+        }
+    });
+    match res {
+        exec::Guarded::Done(r) => r,
+        exec::Guarded::Panic(m) | exec::Guarded::Hang(m) => Err(format!("setup died: {m}")),
+    }
+}
+
+async fn do_op(shared: &SharedCore, op: &Op, pool: &[Proof]) -> (ResAbs, Option<Proof>) {
+    match op {
+        Op::Append(b) => match shared.append(&payload(b)).await {
+            Ok(o) => (ResAbs::Appended(o.length, o.byte_length), None),
+            Err(e) => (ResAbs::Err(e.to_string()), None),
+        },
+        Op::Batch(bs) => {
+            let v: Vec<Vec<u8>> = bs.iter().map(payload).collect();
+            match shared.append_batch(v).await {
+                Ok(o) => (ResAbs::Appended(o.length, o.byte_length), None),
+                Err(e) => (ResAbs::Err(e.to_string()), None),
+            }
+        }
+        Op::Get(i) => match shared.get(*i).await {
+            Ok(v) => (ResAbs::Got(v), None),
+            Err(e) => (ResAbs::Err(e.to_string()), None),
+        },
+        Op::Has(i) => (ResAbs::Has(shared.has(*i).await), None),
+        Op::Info => {
+            let i = shared.info().await;
+            (ResAbs::Info(i.length, i.byte_length), None)
+        }
+        Op::ProofBlock(i) => match shared.create_proof(Some(RequestBlock { index: *i, nodes: 0 }), None, None, None).await {
+            Ok(Some(p)) => (ResAbs::ProofSome { sig_len: None, block: p.block.as_ref().map(|b| (b.index, b.value.clone())) }, Some(p)),
+            Ok(None) => (ResAbs::ProofNone, None),
+            Err(e) => (ResAbs::Err(e.to_string()), None),
+        },
+        Op::ProofUpgrade(k) => match shared.create_proof(None, None, None, Some(RequestUpgrade { start: 0, length: *k })).await {
+            Ok(Some(p)) => (ResAbs::ProofSome { sig_len: None, block: None }, Some(p)),
+            Ok(None) => (ResAbs::ProofNone, None),
+            Err(e) => (ResAbs::Err(e.to_string()), None),
+        },
+        Op::MissingNodes(i) => match shared.missing_nodes(*i).await {
+            Ok(v) => (ResAbs::Missing(v), None),
+            Err(e) => (ResAbs::Err(e.to_string()), None),
+        },
+        Op::Clear(s, e) => {
+            let mut g = shared.0.lock().await;
+            match g.clear(*s, *e).await {
+                Ok(()) => (ResAbs::Cleared, None),
+                Err(e) => (ResAbs::Err(e.to_string()), None),
+            }
+        }
+        Op::Apply(k) => {
+            if pool.is_empty() {
+                return (ResAbs::Refused, None);
+            }
+            let p = &pool[*k as usize % pool.len()];
+            match shared.verify_and_apply_proof(p).await {
+                Ok(true) => (ResAbs::Accepted, None),
+                Ok(false) | Err(_) => (ResAbs::Refused, None),
+            }
+        }
+    }
+}
+
+pub struct OneRun {
+    pub viols: Vec<Viol>,
+    pub schedule: Vec<u32>,
+    pub choices: Vec<u8>,
+    pub widths: Vec<u8>,
+    pub preemptions: u64,
+    pub lin_states: u64,
+    pub log: u64,
+    pub steps: u64,
+}
+
+enum Chooser {
+    Random(Rng),
+    Pct { prio: Vec<u64>, changes: Vec<usize>, low: u64 },
+    Path(Vec<u8>),
+}
+
+pub fn run_once(spec: &SharedSpec, sched: &Sched) -> OneRun {
+    let mut out = OneRun { viols: vec![], schedule: vec![], choices: vec![], widths: vec![], preemptions: 0, lin_states: 0, log: 0, steps: 0 };
+    let built = match build(spec) {
+        Ok(b) => b,
+        Err(e) => {
+            // setup failing is not a concurrency finding
+            out.viols.push(Viol { clause: "SETUP".into(), step: -1, msg: e });
+            return out;
+        }
+    };
+    built.disk.lock().yield_mode = true;
+    let counter = Rc::new(Cell::new(0u64));
+    let recs: Rc<RefCell<Vec<Rec>>> = Rc::new(RefCell::new(vec![]));
+    let proofs: Rc<RefCell<Vec<(usize, Proof)>>> = Rc::new(RefCell::new(vec![]));
+    let pool = Rc::new(built.pool.clone());
+    let mut tasks: Vec<Task<'_>> = vec![];
+    for (t, ops) in spec.tasks.iter().enumerate() {
+        let shared = built.shared.clone();
+        let counter = counter.clone();
+        let recs = recs.clone();
+        let proofs = proofs.clone();
+        let pool = pool.clone();
+        let ops = ops.clone();
+        tasks.push(Task {
+            fut: Some(Box::pin(async move {
+                for op in ops {
+                    counter.set(counter.get() + 1);
+                    let inv = counter.get();
+                    let (res, proof) = do_op(&shared, &op, &pool).await;
+                    counter.set(counter.get() + 1);
+                    let ret = counter.get();
+                    let idx = recs.borrow().len();
+                    if let Some(p) = proof {
+                        proofs.borrow_mut().push((idx, p));
+                    }
+                    recs.borrow_mut().push(Rec { task: t, op, inv, ret, res, raw_sig: None });
+                }
+            })),
+            waker: Arc::new(TaskWaker { ready: AtomicBool::new(true) }),
+        });
+    }
+    let ntasks = tasks.len();
+    let mut chooser = match sched {
+        Sched::Random { seed } => Chooser::Random(Rng::new(*seed, &[0x5c4ed])),
+        Sched::Pct { seed, d } => {
+            let mut r = Rng::new(*seed, &[0x9c7]);
+            let mut prio: Vec<u64> = (0..ntasks as u64).map(|i| 1000 + i).collect();
+            r.shuffle(&mut prio);
+            let changes: Vec<usize> = (0..*d).map(|_| r.below(400) as usize).collect();
+            Chooser::Pct { prio, changes, low: 999 }
+        }
+        Sched::Path(p) => Chooser::Path(p.clone()),
+        Sched::Dfs { .. } => Chooser::Path(vec![]),
+    };
+    let counter2 = counter.clone();
+    let mut choices: Vec<u8> = vec![];
+    let mut widths: Vec<u8> = vec![];
+    let mut last: Option<usize> = None;
+    let mut preempt = 0u64;
+    let (outcome, schedule) = exec::run_tasks(
+        &mut tasks,
+        |ready, step| {
+            counter2.set(counter2.get() + 1);
+            let pick_idx = match &mut chooser {
+                Chooser::Random(r) => r.below(ready.len() as u64) as usize,
+                Chooser::Pct { prio, changes, low } => {
+                    if changes.contains(&step) {
+                        // demote the currently highest-priority ready task
+                        if let Some(&t) = ready.iter().max_by_key(|t| prio[**t]) {
+                            prio[t] = *low;
+                            *low -= 1;
+                        }
+                    }
+                    let t = *ready.iter().max_by_key(|t| prio[**t]).unwrap();
+                    ready.iter().position(|x| *x == t).unwrap()
+                }
+                Chooser::Path(p) => {
+                    let c = p.get(step).copied().unwrap_or(0) as usize;
+                    c.min(ready.len() - 1)
+                }
+            };
+            choices.push(pick_idx as u8);
+            widths.push(ready.len() as u8);
+            let t = ready[pick_idx];
+            if let Some(l) = last {
+                if l != t && ready.contains(&l) {
+                    preempt += 1;
+                }
+            }
+            last = Some(t);
+            t
+        },
+        200_000,
+    );
+    drop(tasks);
+    out.schedule = schedule;
+    out.choices = choices;
+    out.widths = widths;
+    out.preemptions = preempt;
+    out.steps = counter.get();
+    let mut viol = |clause: &str, msg: String| out.viols.push(Viol { clause: clause.into(), step: -1, msg });
+    match outcome {
+        SchedOutcome::AllDone => {}
+        SchedOutcome::Deadlock(alive) => {
+            viol("C15.deadlock", format!("tasks {alive:?} are blocked forever (no task is runnable)"));
+            return out;
+        }
+        SchedOutcome::Budget => {
+            viol("C15.hang", "step budget exhausted".into());
+            return out;
+        }
+        SchedOutcome::Panic(t, m) => {
+            viol("C15.panic", format!("task {t} panicked: {m}"));
+            return out;
+        }
+    }
+    // final contents (sequentially, no yields)
+    built.disk.lock().yield_mode = false;
+    let shared = built.shared.clone();
+    let fin = exec::run(async {
+        let mut g = shared.0.lock().await;
+        let info = g.info();
+        let mut blocks: Vec<Option<Vec<u8>>> = vec![];
+        for i in 0..info.length {
+            blocks.push(g.get(i).await.ok().flatten());
+        }
+        (info.length, info.byte_length, blocks)
+    });
+    let (flen, fbytes, fblocks) = match fin {
+        exec::Guarded::Done(v) => v,
+        _ => {
+            viol("C15.panic", "reading the final state panicked".into());
+            return out;
+        }
+    };
+    let mut recs_v: Vec<Rec> = recs.borrow().clone();
+    // abstract created proofs: which length does the signature verify for?
+    if !spec.replica {
+        // writer: every block is known from the ops (cleared ones from payloads by index is not
+        // possible), so take the contents from the sequentially determined order: appended blocks
+        // are identified by their append outcome (length after append)
+        let mut all: BTreeMap<u64, Vec<u8>> = BTreeMap::new();
+        for (i, b) in spec.prelude.iter().enumerate() {
+            all.insert(i as u64, payload(b));
+        }
+        for r in &recs_v {
+            if let ResAbs::Appended(len, _) = r.res {
+                match &r.op {
+                    Op::Append(b) => {
+                        all.insert(len - 1, payload(b));
+                    }
+                    Op::Batch(bs) => {
+                        for (k, b) in bs.iter().enumerate() {
+                            all.insert(len - bs.len() as u64 + k as u64, payload(b));
+                        }
+                    }
+                    _ => {}
+                }
+            }
+        }
+        let appended: u64 = spec.prelude.len() as u64
+            + recs_v
+                .iter()
+                .filter(|r| matches!(r.res, ResAbs::Appended(..)))
+                .map(|r| match &r.op {
+                    Op::Append(_) => 1,
+                    Op::Batch(bs) => bs.len() as u64,
+                    _ => 0,
+                })
+                .sum::<u64>();
+        let complete = appended == flen && (0..flen).all(|i| all.contains_key(&i));
+        if complete {
+            let seq: Vec<Vec<u8>> = (0..flen).map(|i| all[&i].clone()).collect();
+            let tree = RefTree::from_blocks(&seq);
+            let pk = key_from_seed(spec.key_seed).verifying_key();
+            for (idx, p) in proofs.borrow().iter() {
+                if let Some(u) = &p.upgrade {
+                    let mut found = None;
+                    if let Ok(sig) = Signature::from_slice(&u.signature) {
+                        for l in 1..=flen {
+                            if pk.verify(&tree.signable(l, 0), &sig).is_ok() {
+                                found = Some(l);
+                                break;
+                            }
+                        }
+                    }
+                    if let ResAbs::ProofSome { sig_len, .. } = &mut recs_v[*idx].res {
+                        *sig_len = Some(found.unwrap_or(0));
+                    }
+                }
+            }
+            // direct judge: each task's blocks sit at the indices its outcome implies
+            for i in 0..flen {
+                if let Some(b) = &fblocks[i as usize] {
+                    if *b != all[&i] {
+                        viol("C15.blocks", format!("block {i} does not hold the bytes of the append whose outcome implies that index"));
+                    }
+                }
+            }
+        } else {
+            viol("C15.gaps", format!("append outcomes do not cover indices 0..{flen} exactly once"));
+        }
+    } else {
+        for i in 0..flen {
+            if let Some(b) = &fblocks[i as usize] {
+                if Some(b) != built.writer_blocks.get(i as usize) {
+                    viol("C15.blocks", format!("replica block {i} differs from the writer's"));
+                }
+            }
+        }
+    }
+    let _ = fbytes;
+    let n = recs_v.len();
+    if n > 24 {
+        viol("SETUP", "history too long for the checker".into());
+        return out;
+    }
+    let (ok, explored) = linearizable(&recs_v, &built.init, spec.replica, &built.pool_info);
+    out.lin_states = explored;
+    if !ok {
+        let mut h: Vec<String> = recs_v
+            .iter()
+            .map(|r| format!("t{} [{}..{}] {:?} -> {}", r.task, r.inv, r.ret, r.op, brief_res(&r.res)))
+            .collect();
+        h.sort();
+        viol(
+            "C15.linearizability",
+            format!("no sequential order of the calls reproduces the observed results; history: {}", h.join(" | ")),
+        );
+    }
+    let mut d = crate::rng::Digest::default();
+    for r in &recs_v {
+        d.u64(r.task as u64);
+        d.u64(r.inv);
+        d.u64(r.ret);
+        d.str(&brief_res(&r.res));
+    }
+    for s in &out.schedule {
+        d.u64(*s as u64);
+    }
+    out.log = d.0;
+    out
+}
+
+fn brief_res(r: &ResAbs) -> String {
+    match r {
+        ResAbs::Got(Some(b)) => format!("Got(len {})", b.len()),
+        ResAbs::ProofSome { sig_len, block } => {
+            format!("Proof(sig for length {:?}, block {:?})", sig_len, block.as_ref().map(|b| (b.0, b.1.len())))
+        }
+        ResAbs::Err(e) => format!("Err({})", e.chars().take(40).collect::<String>()),
+        other => format!("{other:?}"),
+    }
+}
+
+pub fn run_shared(spec: &SharedSpec) -> CaseOut {
+    let mut out = CaseOut::default();
+    out.nontrivial = false;
+    let mut sched_hashes: BTreeSet<u64> = BTreeSet::new();
+    let mut push_run = |out: &mut CaseOut, r: &OneRun| {
+        out.count("schedules", 1);
+        out.count("preemptions", r.preemptions);
+        out.count("linearisation_states_explored", r.lin_states);
+        out.sim_steps += r.steps;
+        let mut d = crate::rng::Digest::default();
+        for s in &r.schedule {
+            d.u64(*s as u64);
+        }
+        if sched_hashes.insert(d.0) {
+            out.states.insert(d.0);
+        }
+        if r.preemptions > 0 {
+            out.nontrivial = true;
+        }
+        out.log_hash ^= r.log.rotate_left(7);
+    };
+    match &spec.sched {
+        Sched::Dfs { cap } => {
+            let mut path: Vec<u8> = vec![];
+            let mut n = 0u32;
+            loop {
+                let r = run_once(spec, &Sched::Path(path.clone()));
+                push_run(&mut out, &r);
+                n += 1;
+                let real: Vec<Viol> = r.viols.iter().filter(|v| v.clause.starts_with("C15.")).cloned().collect();
+                if !real.is_empty() {
+                    let mut c = spec.clone();
+                    c.sched = Sched::Path(r.choices.clone());
+                    out.concrete = Some(Box::new(Case { prop: "C15".into(), family: String::new(), run: 0, body: Body::Shared(c) }));
+                    out.viols = real;
+                    return out;
+                }
+                // next path: increment the last position that still has an alternative
+                let mut choices = r.choices.clone();
+                let widths = r.widths.clone();
+                let mut advanced = false;
+                while let Some(c) = choices.pop() {
+                    let w = widths[choices.len()];
+                    if c + 1 < w {
+                        choices.push(c + 1);
+                        advanced = true;
+                        break;
+                    }
+                }
+                if !advanced {
+                    out.count("dfs_exhausted", 1);
+                    break;
+                }
+                if n >= *cap {
+                    out.count("dfs_capped", 1);
+                    break;
+                }
+                path = choices;
+            }
+        }
+        s => {
+            let r = run_once(spec, s);
+            push_run(&mut out, &r);
+            let real: Vec<Viol> = r.viols.iter().filter(|v| v.clause.starts_with("C15.")).cloned().collect();
+            if r.viols.iter().any(|v| v.clause == "SETUP") {
+                out.aborted = Some("setup failed".into());
+            }
+            if !real.is_empty() {
+                let mut c = spec.clone();
+                c.sched = Sched::Path(r.choices.clone());
+                out.concrete = Some(Box::new(Case { prop: "C15".into(), family: String::new(), run: 0, body: Body::Shared(c) }));
+                out.viols = real;
+            }
+        }
+    }
+    out
+}
+
+pub fn gen_spec(r: &mut Rng, idx: u64, small: bool) -> SharedSpec {
+    let mut g = crate::gen::G::new(idx);
+    let replica = r.chance(1, 4);
+    let npre = if replica { r.range(2, 9) } else { r.below(6) };
+    let prelude: Vec<Blk> = (0..npre).map(|_| g.blk(r)).map(|mut b| { b.len = b.len.min(40); b }).collect();
+    let prelude2: Vec<Blk> = if replica && r.chance(1, 2) { (0..r.range(1, 3)).map(|_| g.blk(r)).map(|mut b| { b.len = b.len.min(40); b }).collect() } else { vec![] };
+    let ntasks = if small { 2 } else { r.range(2, 4) as usize };
+    let mut tasks = vec![];
+    let mut total = 0;
+    for _ in 0..ntasks {
+        let nops = if small { r.range(1, 2) } else { r.range(1, 4) } as usize;
+        let mut ops = vec![];
+        for _ in 0..nops {
+            if total >= 14 {
+                break;
+            }
+            total += 1;
+            let idx_sel = r.below(npre + 6);
+            ops.push(if replica {
+                match r.below(10) {
+                    0..=5 => Op::Apply(r.below(8) as u32),
+                    6 => Op::Get(idx_sel),
+                    7 => Op::Has(idx_sel),
+                    8 => Op::MissingNodes(idx_sel),
+                    _ => Op::Info,
+                }
+            } else {
+                match r.below(16) {
+                    0..=4 => {
+                        let mut b = g.blk(r);
+                        b.len = b.len.min(40);
+                        Op::Append(b)
+                    }
+                    5 | 6 => {
+                        let k = r.range(0, 3);
+                        Op::Batch((0..k).map(|_| { let mut b = g.blk(r); b.len = b.len.min(40); b }).collect())
+                    }
+                    7 | 8 => Op::Get(idx_sel),
+                    9 => Op::Has(idx_sel),
+                    10 => Op::Info,
+                    11 => Op::ProofBlock(idx_sel),
+                    12 | 13 => Op::ProofUpgrade(r.range(1, npre + 4)),
+                    14 => Op::MissingNodes(idx_sel),
+                    _ => {
+                        // start below the prelude length, which every linearisation point exceeds
+                        if npre == 0 {
+                            Op::Info
+                        } else {
+                            let s = r.below(npre);
+                            Op::Clear(s, s + r.range(1, 3))
+                        }
+                    }
+                }
+            });
+        }
+        tasks.push(ops);
+    }
+    SharedSpec { key_seed: idx ^ 0xc15, replica, prelude, prelude2, tasks, sched: Sched::Random { seed: r.next() } }
 }
